@@ -58,11 +58,34 @@ If the current thread is a `tokio` thread then this call will be executed using 
 pub fn blocking_flush<T: Channel>(sender: &Sender<T>, timeout: Duration) -> bool {
     if is_multi_thread_runtime() {
         // If we're on a multi-threaded `tokio` runtime then tell it we're about to block
-        tokio::task::block_in_place(|| sync::blocking_flush(sender, timeout))
+        block_in_place(|| sync::blocking_flush(sender, timeout))
     } else {
         // If we're not on a `tokio` thread, or the runtime can't move
         // other work off this thread, then run a regular blocking variant
         sync::blocking_flush(sender, timeout)
+    }
+}
+
+/**
+Run a blocking call through [`tokio::task::block_in_place`] where the runtime allows it.
+
+A multi-threaded runtime still refuses `block_in_place` on threads it can't move work off, such as inside a `LocalSet`. It refuses by panicking before the closure is called, and doesn't offer a way to ask up-front. Diagnostics shouldn't bring down their caller, so in that case the call is made like it would be on a non-`tokio` thread.
+*/
+fn block_in_place<R>(f: impl FnOnce() -> R) -> R {
+    use std::panic::{catch_unwind, resume_unwind, AssertUnwindSafe};
+
+    let mut f = Some(f);
+
+    match catch_unwind(AssertUnwindSafe(|| {
+        tokio::task::block_in_place(|| (f.take().expect("called once"))())
+    })) {
+        Ok(r) => r,
+        Err(panic) => match f.take() {
+            // The closure was never called; the runtime refused to block in place
+            Some(f) => f(),
+            // The closure itself panicked
+            None => resume_unwind(panic),
+        },
     }
 }
 
@@ -98,7 +121,7 @@ pub fn blocking_send<T: Channel>(
 ) -> Result<(), BatchError<T::Item>> {
     if is_multi_thread_runtime() {
         // If we're on a multi-threaded `tokio` runtime then tell it we're about to block
-        tokio::task::block_in_place(|| sync::blocking_send(sender, msg, timeout))
+        block_in_place(|| sync::blocking_send(sender, msg, timeout))
     } else {
         // If we're not on a `tokio` thread, or the runtime can't move
         // other work off this thread, then run a regular blocking variant
